@@ -87,6 +87,15 @@ pub fn run(id: &str, args: &[String]) -> i32 {
             seeds += 1;
         }
     }
+    // plus near-valid type definitions from the C18 generator's type grammar
+    for i in 0..300u64 {
+        let dice: Vec<u8> = (0..24u64).map(|k| (hash64(&(i, k)) & 0xff) as u8).collect();
+        let text = c18::render(&c18::Gen::TypeUse(dice), &[]);
+        if c18::excluded(&text).is_none() {
+            std::fs::write(format!("{work}/seeds/type-{i:03}.qv"), text).expect("write seed");
+            seeds += 1;
+        }
+    }
     // token dictionary: the C18 generator's own alphabet
     let mut dict = String::new();
     for t in c18::TOKENS {
